@@ -1,8 +1,181 @@
 (** C02 — the live MPD and the segment server agree on what is available.
-    Only statements; proofs are [exact <lemma>] (theories/WindowProofs.v). *)
-From Verif Require Import GoSem Timeline TimelineProofs.
+    Only statements; proofs are [exact <lemma>] (theories/WindowProofs.v).
+
+    Spec (theories/Window.v).  [S r n] / [E r n]: start / end of segment [n] of the looped timeline
+    in media ticks since availabilityStartTime (Timeline.v).
+      [lastFin r t]                = index of the newest segment with [E r n <= t] (-1: none)
+      [tick r c atoMS x]           = floor((x - start + atoMS) ms * timescale / 1000)
+      [window_last r c atoMS now]  = lastFin (tick now)
+      [window_first r c atoMS now tsbdMS] = max 0 (lastFin (tick (max (now - tsbdMS) start)))
+      [window_td r first last]     = [(S k, E k - S k) | k = first .. last]
+    Model of the code (theories/Timeline.v): [calcWrapTimes], [generateTimelineEntries] (MPD side),
+    [lookup] = the segment request by $Number$ / $Time$ with [checkTime] (server side). *)
+From Verif Require Import GoSem Timeline TimelineProofs Window WindowProofs.
 From VerifGen Require Consts.
 
 (** Constants of the Go source the model depends on (regenerated from /repo on every run). *)
 Theorem C02_consts : Consts.app_defaultStartNr = 0 /\ Consts.app_timeShiftBufferDepthMarginS = tsbdMarginS.
 Proof. split; reflexivity. Qed.
+
+(** [lastFin] is what its name says: the newest segment that has ended at media time [t]. *)
+Theorem C02_lastFin_spec : forall r loopMS, wf r loopMS -> forall t, 0 <= t ->
+  -1 <= lastFin r t /\ (0 <= lastFin r t -> E r (lastFin r t) <= t) /\ t < E r (lastFin r t + 1).
+Proof. exact lastFin_spec. Qed.
+Print Assumptions C02_lastFin_spec.
+
+Theorem C02_lastFin_ge_iff : forall r loopMS, wf r loopMS -> forall t m, 0 <= m ->
+  (E r m <= t <-> m <= lastFin r t).
+Proof. exact lastFin_ge_iff. Qed.
+Print Assumptions C02_lastFin_ge_iff.
+
+(** The wraps-- / relIdx = N-1 juggling of generateTimelineEntries computes [lastFin]:
+    [wraps * repDuration] ticks are exactly [wraps * loopMS] ms. *)
+Theorem C02_edgeIdx_spec : forall r loopMS, wf r loopMS -> forall wraps relMS atoMS,
+  0 <= relMS < loopMS -> 0 <= atoMS -> atoMS * ts r <= 1000 * en (segAt r 0) ->
+  let '(w, i) := edgeIdx r wraps relMS atoMS in
+  0 <= i < nsegs r /\
+  w * nsegs r + i = lastFin r (wraps * repDuration r + Z.quot ((relMS + atoMS) * ts r) 1000).
+Proof. exact edgeIdx_spec. Qed.
+Print Assumptions C02_edgeIdx_spec.
+
+(** The SegmentTimeline of the MPD is exactly the window [first, last] of the looped timeline
+    (start number, every (t, d) after expansion of the repeat counts, and the last-segment
+    information used for publishTime); it is empty iff no segment has ended.
+    [atoMS * ts <= 1000 * en_0]: the availabilityTimeOffset is at most the first segment's duration. *)
+Theorem C02_timeline_is_window : forall r loopMS, wf r loopMS -> forall c now tsbdMS atoMS,
+  startS c * 1000 <= now -> 0 <= tsbdMS -> 0 <= atoMS -> atoMS * ts r <= 1000 * en (segAt r 0) ->
+  let se := generateTimelineEntries r (calcWrapTimes loopMS c now tsbdMS) atoMS in
+  let last := window_last r c atoMS now in
+  let first := window_first r c atoMS now tsbdMS in
+  (last < 0 -> se_startNr se = -1 /\ se_entries se = []) /\
+  (0 <= last ->
+     first <= last /\ se_startNr se = first /\
+     expand (se_entries se) = window_td r first last /\
+     se_lsi_nr se = last /\ se_lsi_start se = S r last /\ se_lsi_dur se = E r last - S r last).
+Proof. exact timeline_is_window. Qed.
+Print Assumptions C02_timeline_is_window.
+
+(** The listed (t, d) pairs have neither gap nor overlap (also across loop wraps). *)
+Theorem C02_window_contiguous : forall r loopMS, wf r loopMS -> forall first k,
+  0 <= first -> td_contiguous (map (td r) (seqZ first k)).
+Proof. exact window_td_contiguous. Qed.
+Print Assumptions C02_window_contiguous.
+
+(** Every segment [k] of the window is answered 200 by the server model at the same instant, by
+    $Time$ and by $Number$, with the declared time, duration and number.
+    Visible hypothesis for the first entry only: the segment after it is not longer than the
+    margin ([tsbdMarginS] = 10 s) the server adds to the time-shift buffer - see
+    [C02_first_entry_gone] below. *)
+Theorem C02_listed_served_time : forall r loopMS, wf r loopMS -> forall c atoMS now k,
+  startS c * 1000 <= now -> 0 <= tsbdS c -> ato c = Some atoMS -> 0 <= atoMS ->
+  let first := window_first r c atoMS now (1000 * tsbdS c) in
+  let last := window_last r c atoMS now in
+  first <= k <= last ->
+  (first < k \/ E r (first + 1) - S r (first + 1) <= tsbdMarginS * ts r) ->
+  S r k < two64 -> 0 <= startNr c -> startNr c + k < two32 ->
+  exists m, lookup r loopMS c ByTime (S r k) now = TOk m /\
+            newTime m = S r k /\ newDur m = u32 (E r k - S r k) /\ newNr m = startNr c + k.
+Proof. exact listed_served_time. Qed.
+Print Assumptions C02_listed_served_time.
+
+Theorem C02_listed_served_number : forall r loopMS, wf r loopMS -> forall c atoMS now k,
+  startS c * 1000 <= now -> 0 <= tsbdS c -> ato c = Some atoMS -> 0 <= atoMS ->
+  let first := window_first r c atoMS now (1000 * tsbdS c) in
+  let last := window_last r c atoMS now in
+  first <= k <= last ->
+  (first < k \/ E r (first + 1) - S r (first + 1) <= tsbdMarginS * ts r) ->
+  S r k < two64 -> 0 <= startNr c -> startNr c + k < two32 ->
+  exists m, lookup r loopMS c ByNumber (startNr c + k) now = TOk m /\
+            newTime m = S r k /\ newDur m = u32 (E r k - S r k) /\ newNr m = startNr c + k.
+Proof. exact listed_served_number. Qed.
+Print Assumptions C02_listed_served_number.
+
+(** The segment just after the live edge is refused as too early. *)
+Theorem C02_next_too_early_time : forall r loopMS, wf r loopMS -> forall c atoMS now,
+  startS c * 1000 <= now -> ato c = Some atoMS -> 0 <= atoMS ->
+  let last := window_last r c atoMS now in
+  S r (last + 1) < two64 ->
+  exists ms, lookup r loopMS c ByTime (S r (last + 1)) now = TTooEarly ms.
+Proof. exact next_too_early_time. Qed.
+Print Assumptions C02_next_too_early_time.
+
+Theorem C02_next_too_early_number : forall r loopMS, wf r loopMS -> forall c atoMS now,
+  startS c * 1000 <= now -> ato c = Some atoMS -> 0 <= atoMS ->
+  let last := window_last r c atoMS now in
+  0 <= startNr c -> startNr c + (last + 1) < two32 ->
+  exists ms, lookup r loopMS c ByNumber (startNr c + (last + 1)) now = TTooEarly ms.
+Proof. exact next_too_early_number. Qed.
+Print Assumptions C02_next_too_early_number.
+
+(** End to end, without the spec functions: the [j]-th (t, d) pair of the expanded timeline of the
+    MPD model is served by the server model, by time [t] and by number startNumber + j. *)
+Theorem C02_mpd_listed_served : forall r loopMS, wf r loopMS -> forall c atoMS now j t d,
+  startS c * 1000 <= now -> 0 <= tsbdS c -> ato c = Some atoMS -> 0 <= atoMS ->
+  atoMS * ts r <= 1000 * en (segAt r 0) ->
+  let se := generateTimelineEntries r (calcWrapTimes loopMS c now (1000 * tsbdS c)) atoMS in
+  nth_error (expand (se_entries se)) j = Some (t, d) ->
+  ((0 < j)%nat \/ E r (se_startNr se + 1) - S r (se_startNr se + 1) <= tsbdMarginS * ts r) ->
+  t < two64 -> 0 <= startNr c -> startNr c + (se_startNr se + Z.of_nat j) < two32 ->
+  (exists m, lookup r loopMS c ByTime t now = TOk m /\
+             newTime m = t /\ newDur m = u32 d /\ newNr m = startNr c + (se_startNr se + Z.of_nat j)) /\
+  (exists m, lookup r loopMS c ByNumber (startNr c + (se_startNr se + Z.of_nat j)) now = TOk m /\
+             newTime m = t /\ newDur m = u32 d /\ newNr m = startNr c + (se_startNr se + Z.of_nat j)).
+Proof. exact mpd_listed_served. Qed.
+Print Assumptions C02_mpd_listed_served.
+
+Theorem C02_mpd_next_too_early : forall r loopMS, wf r loopMS -> forall c atoMS now tsbdMS,
+  startS c * 1000 <= now -> 0 <= tsbdMS -> ato c = Some atoMS -> 0 <= atoMS ->
+  atoMS * ts r <= 1000 * en (segAt r 0) ->
+  let se := generateTimelineEntries r (calcWrapTimes loopMS c now tsbdMS) atoMS in
+  0 <= se_startNr se ->
+  se_lsi_start se + se_lsi_dur se < two64 -> 0 <= startNr c -> startNr c + (se_lsi_nr se + 1) < two32 ->
+  (exists ms, lookup r loopMS c ByTime (se_lsi_start se + se_lsi_dur se) now = TTooEarly ms) /\
+  (exists ms, lookup r loopMS c ByNumber (startNr c + (se_lsi_nr se + 1)) now = TTooEarly ms).
+Proof. exact mpd_next_too_early. Qed.
+Print Assumptions C02_mpd_next_too_early.
+
+(** Why the hypothesis on the first entry is there (finding): table 4 s, 30 s, 4 s, tsbd 20 s,
+    now = 34.5 s.  The MPD lists segment 0 (ended at 4 s: the newest one ended at the window start
+    14.5 s) although the server keeps it only until 4 + 20 + 10 = 34 s: 410 Gone.  The listed
+    entry itself is short; the segment after it is longer than the 10 s margin. *)
+Theorem C02_first_entry_gone :
+  exists r loopMS c atoMS now,
+    wf r loopMS /\ startS c * 1000 <= now /\ 0 <= tsbdS c /\ ato c = Some atoMS /\ 0 <= atoMS /\
+    atoMS * ts r <= 1000 * en (segAt r 0) /\
+    let se := generateTimelineEntries r (calcWrapTimes loopMS c now (1000 * tsbdS c)) atoMS in
+    let first := window_first r c atoMS now (1000 * tsbdS c) in
+    se_startNr se = first /\ first <= window_last r c atoMS now /\
+    hd_error (expand (se_entries se)) = Some (S r first, E r first - S r first) /\
+    E r first - S r first <= tsbdMarginS * ts r /\
+    lookup r loopMS c ByTime (S r first) now = TGone /\
+    lookup r loopMS c ByNumber (startNr c + first) now = TGone.
+Proof. exact first_gone_witness. Qed.
+Print Assumptions C02_first_entry_gone.
+
+(** Non-vacuity: 4 x 2 s loop (testpic_2s/V300), start 30 s, startNumber 7, tsbd 10 s,
+    availabilityTimeOffset 0.5 s, now = 100 s: segments 29..34 are listed, all served with their
+    (t, d, number), number 35 is too early; right after the start the list is empty until the
+    first segment has ended (less the offset). *)
+Definition ex_rep : rep :=
+  {| segs := [ {| st := 0; en := 180000; snr := 1 |}; {| st := 180000; en := 360000; snr := 2 |};
+               {| st := 360000; en := 540000; snr := 3 |}; {| st := 540000; en := 720000; snr := 4 |} ];
+     ts := 90000 |}.
+Definition ex_cfg : tcfg := {| startS := 30; startNr := 7; tsbdS := 10; ato := Some 500 |}.
+Example C02_example :
+  wf ex_rep 8000 /\
+  (window_first ex_rep ex_cfg 500 100000 10000, window_last ex_rep ex_cfg 500 100000) = (29, 34) /\
+  generateTimelineEntries ex_rep (calcWrapTimes 8000 ex_cfg 100000 10000) 500
+  = {| se_startNr := 29; se_entries := [{| e_t := 5220000; e_d := 180000; e_r := 5 |}];
+       se_lsi_nr := 34; se_lsi_start := 6120000; se_lsi_dur := 180000 |} /\
+  window_td ex_rep 29 34 = [(5220000, 180000); (5400000, 180000); (5580000, 180000);
+                            (5760000, 180000); (5940000, 180000); (6120000, 180000)] /\
+  lookup ex_rep 8000 ex_cfg ByTime 6120000 100000
+  = TOk {| origTime := 360000; newTime := 6120000; origNr := 3; newNr := 41;
+           origDur := 180000; newDur := 180000; mtimescale := 90000 |} /\
+  lookup ex_rep 8000 ex_cfg ByNumber (7 + 35) 100000 = TTooEarly 1500 /\
+  se_startNr (generateTimelineEntries ex_rep (calcWrapTimes 8000 ex_cfg 31499 10000) 500) = -1 /\
+  se_startNr (generateTimelineEntries ex_rep (calcWrapTimes 8000 ex_cfg 31500 10000) 500) = 0.
+Proof.
+  split; [|vm_compute; repeat split; reflexivity].
+  constructor; cbn; try lia; try discriminate; repeat constructor; cbn; lia.
+Qed.
